@@ -526,12 +526,26 @@ def _import_variants(qp):
         ip_barrier = True
     else:
         raise TranslatorError(f"_initialize_pass: treatment of barrier / include not recognised: {sites}")
+    # _initialize_pass: the closing brace of a definition (empty bodies refused as "opaque"?)
+    closing = [n for n in ast.walk(ip) if isinstance(n, ast.If) and U(n.test) == "command[0] == '}'"]
+    if len(closing) != 1:
+        raise TranslatorError("_initialize_pass: branch of the closing brace not recognised")
+    cb = [U(x) for x in closing[0].body]
+    tail_cb = ["open_bracket_mode = False", "self.gate_names.add(curr_gate.name)",
+               "self.qasm_gates[curr_gate.name] = curr_gate", "continue"]
+    if cb == tail_cb:
+        empty_body_ok = True
+    elif len(cb) == 5 and cb[1:] == tail_cb and cb[0].startswith("if not curr_gate.gates_inside:\n    raise NotImplementedError("):
+        empty_body_ok = False
+    else:
+        raise TranslatorError(f"_initialize_pass: closing brace of a gate definition not recognised: {cb}")
     if not (fp_barrier == rp_barrier == ip_barrier):
         raise TranslatorError("barrier statements: _initialize_pass, _final_pass and _regs_processor do not belong to "
                               "the same variant")
     if rp_empty != ga_empty:
         raise TranslatorError("empty registers: _regs_processor and _gate_add do not belong to the same variant")
-    return {"if_skip": if_skip, "if_rev": if_rev, "barrier_checked": fp_barrier, "empty_reg_ok": rp_empty}
+    return {"if_skip": if_skip, "if_rev": if_rev, "barrier_checked": fp_barrier, "empty_reg_ok": rp_empty,
+            "empty_body_ok": empty_body_ok}
 
 
 # ------------------------------------------------------------------------------------------
@@ -608,6 +622,9 @@ def render():
     A("def barrierChecked : Bool := " + ("true" if i["barrier_checked"] else "false"))
     A("/-- `_regs_processor` / `_gate_add`: a statement on empty registers has no instance (arity still checked) -/")
     A("def emptyRegOk : Bool := " + ("true" if i["empty_reg_ok"] else "false"))
+    A("")
+    A("/-- `_initialize_pass` accepts a gate definition without any gate statement in its body (the identity) -/")
+    A("def emptyBodyOk : Bool := " + ("true" if i["empty_body_ok"] else "false"))
     A("")
     A("/-- user gates installed by `_get_qiskit_gates` (bodies recognised by the translator) -/")
     A("def userGates : List Str := " + lean_list([lean_str(x) for x in i["user_gates"]]))
